@@ -49,6 +49,7 @@ func runC15(c *core.Ctx) {
 	c.RuleDoc("R15.4", "every transaction of the in-memory store holds the store mutex")
 	c.RuleDoc("R15.5", "the records of one multi-record update are written on one transaction")
 	c.RuleDoc("R15.6", "plain map fields of mutex-owning structs are accessed only with the mutex held")
+	c.RuleDoc("R15.11", "the amount a handle grows its content by is read in the critical section that grows (known finding)")
 	c.RuleDoc("R15.8", "no call that can take another lock while a blob's mutex is held (= R19.4)")
 	c.RuleDoc("R15.9", "a view shares the mutex of the blob it aliases (= R19.3)")
 	c.RuleDoc("R15.10", "a value that came with an error is neither used nor kept (= R14.3): an entry removed by another goroutine between listing and Stat must not become a nil element")
@@ -68,6 +69,9 @@ func runC15(c *core.Ctx) {
 		r15OneTransaction(c, p)
 		r15MapsUnderMutex(c, p, "mem", "keyvalue", "tar", "mount", "cache", "internal/pathlock")
 		r15StatelessFS(c, p)
+		if p.Target == load.Linux {
+			r15GrowFromStaleLength(c, p)
+		}
 		if blobI := ifaceOf(p, "keyvalue/blob", "Blob"); blobI != nil {
 			for _, n := range implementers(p, blobI) {
 				if sh := discoverBlobShape(p, n); sh != nil && sh.dataField != "" {
@@ -713,5 +717,42 @@ func r15StatelessFS(c *core.Ctx, p *load.Program) {
 		})
 		c.Check(bad == "", "R15.7", key, p.Pos(fn.Pos()), "the method stores into no field of the shared FS value",
 			fmt.Sprintf("%s stores into the field %s of the FS value, which all goroutines share and no lock protects: two concurrent calls (even on unrelated paths) overwrite each other's state", fname(fn), bad))
+	}
+}
+
+// r15GrowFromStaleLength (R15.11): a handle method that grows the content blob by an amount computed from an earlier
+// Len() of the same blob does so in two separate critical sections of the blob (Len locks and unlocks, Grow locks
+// again): two handles writing at once both see the old length and both grow — "aa" and "bb" written at offset 0 of an
+// empty file leave 4 bytes. The blob API offers only the relative Grow, so the handle cannot make the step atomic.
+func r15GrowFromStaleLength(c *core.Ctx, p *load.Program) {
+	fileT := p.Named("keyvalue", "file")
+	grow := p.Func("keyvalue/blob", "Grow")
+	if fileT == nil || grow == nil {
+		c.Hard("anchor: keyvalue.file / blob.Grow")
+		return
+	}
+	n := 0
+	for _, fn := range methodList(p, fileT) {
+		ord := ordinals{}
+		ssax.Instrs(fn, func(ins ssa.Instruction) {
+			cl, ok := ins.(*ssa.Call)
+			if !ok || ssax.StaticCallee(cl) != grow || len(cl.Call.Args) != 2 {
+				return
+			}
+			data := cl.Call.Args[0]
+			fromLen := dependsOn(cl.Call.Args[1], func(v ssa.Value) bool {
+				lc, ok := v.(*ssa.Call)
+				return ok && lc.Call.IsInvoke() && lc.Call.Method.Name() == "Len" && lc.Call.Value == data
+			})
+			if !fromLen {
+				return
+			}
+			n++
+			key := fname(fn) + "|" + ord.next("grow-amount-read-in-the-same-critical-section")
+			c.Bad("R15.11", key, p.Pos(cl.Pos()), fmt.Sprintf("%s grows the content by an amount computed from an earlier Len() of the same blob: Len and Grow are two separate critical sections of the blob, so two handles writing at once both see the old length and both grow (WriteAt(\"aa\",0) and WriteAt(\"bb\",0) on an empty file through two handles leave 4 bytes, \"aa\\x00\\x00\") — no sequential order of the two writes gives that file", fname(fn)))
+		})
+	}
+	if n == 0 {
+		c.OK("R15.11", "no-relative-grow-from-len", "", "no handle method grows the content by an amount derived from a separate Len() call")
 	}
 }
